@@ -498,22 +498,27 @@ func (svr *Service) HandleListener(l net.Listener, internal bool) {
 
 		c = netpkg.NewContextConn(xlog.NewContext(ctx, xl), c)
 
-		if !internal {
-			log.Tracef("start check TLS connection...")
-			originConn := c
-			forceTLS := svr.cfg.Transport.TLS.Force
-			var isTLS, custom bool
-			c, isTLS, custom, err = netpkg.CheckAndEnableTLSServerConnWithTimeout(c, svr.tlsConfig, forceTLS, connReadTimeout)
-			if err != nil {
-				log.Warnf("CheckAndEnableTLSServerConnWithTimeout error: %v", err)
-				originConn.Close()
-				continue
-			}
-			log.Tracef("check TLS connection success, isTLS: %v custom: %v internal: %v", isTLS, custom, internal)
-		}
-
 		// Start a new goroutine to handle connection.
 		go func(ctx context.Context, frpConn net.Conn) {
+			if !internal {
+				// Wait for the first byte here and not in the accept loop: a peer that stays
+				// silent must not delay the connections accepted after it.
+				log.Tracef("start check TLS connection...")
+				originConn := frpConn
+				forceTLS := svr.cfg.Transport.TLS.Force
+				var (
+					isTLS, custom bool
+					err           error
+				)
+				frpConn, isTLS, custom, err = netpkg.CheckAndEnableTLSServerConnWithTimeout(frpConn, svr.tlsConfig, forceTLS, connReadTimeout)
+				if err != nil {
+					log.Warnf("CheckAndEnableTLSServerConnWithTimeout error: %v", err)
+					originConn.Close()
+					return
+				}
+				log.Tracef("check TLS connection success, isTLS: %v custom: %v internal: %v", isTLS, custom, internal)
+			}
+
 			if lo.FromPtr(svr.cfg.Transport.TCPMux) && !internal {
 				fmuxCfg := fmux.DefaultConfig()
 				fmuxCfg.KeepAliveInterval = time.Duration(svr.cfg.Transport.TCPMuxKeepaliveInterval) * time.Second
